@@ -3,6 +3,7 @@ Helper lemmas for C01 / C02: the model's settings and rule checks expressed in
 the spec's vocabulary.
 -/
 import AGH.Spec.Filter
+set_option linter.unusedSimpArgs false
 namespace AGH.Filter
 open AGH AGH.Bytes
 
@@ -36,6 +37,14 @@ theorem settings_clientName (c : Conf) : (settings c).clientName = clientNameOf 
 
 theorem settings_clientIP (c : Conf) : (settings c).clientIP = c.clientIP := by
   unfold settings
+  cases c.client <;> rfl
+
+theorem settings_safeBrowsing (c : Conf) : (settings c).safeBrowsing = sbConfigured c := by
+  unfold settings sbConfigured
+  cases c.client <;> rfl
+
+theorem settings_parental (c : Conf) : (settings c).parental = parentalConfigured c := by
+  unfold settings parentalConfigured
   cases c.client <;> rfl
 
 end AGH.Filter
@@ -137,69 +146,188 @@ theorem matchBlockedServices_eq (e : Engines) (c : Conf) (H : Bytes) :
   simp only [matchBlockedServices, settings_protection, settings_services]
   rfl
 
-/-- The three-way classification of the request-stage check, in the spec's words. -/
-theorem checkHost_spec (e : Engines) (hwf : EnginesWF e) (c : Conf) (q : Query) :
-    ∃ res, checkHost e (trimDot q.name) q.qtype (settings c) = .ok res ∧
+/-- the checkers after the rule engines, in the spec's words -/
+theorem checkAfterRules_eq (e : Engines) (c : Conf) (H : Bytes) :
+    checkAfterRules e H (settings c) =
+      if !protectionOn c then {}
+      else match (servicesInForce c).find? (fun sv => e.svc sv H) with
+        | some sv => { reason := .blockedService, isFiltered := true, svcName := sv.name }
+        | none =>
+          if sbConfigured c && e.sb H then { reason := .safeBrowsing, isFiltered := true }
+          else if parentalConfigured c && e.parental H then { reason := .parental, isFiltered := true }
+          else {} := by
+  unfold checkAfterRules
+  rw [matchBlockedServices_eq]
+  simp only [checkSafeBrowsing, checkParental, settings_protection, settings_safeBrowsing, settings_parental]
+  cases hp : protectionOn c
+  · simp
+  · cases hs : (servicesInForce c).find? (fun sv => e.svc sv H) with
+    | some sv => simp
+    | none =>
+      cases h1 : sbConfigured c <;> cases h2 : e.sb H <;> cases h3 : parentalConfigured c <;>
+        cases h4 : e.parental H <;> simp
+
+theorem dedupNames_nil_of_nil : dedupNames [] [] = [] := rfl
+
+theorem flatMap_names_nil (l : List HostsRec) (h : ∀ r ∈ l, r.names = []) : l.flatMap (·.names) = [] := by
+  induction l with
+  | nil => rfl
+  | cons x xs ih =>
+    simp only [List.flatMap_cons]
+    rw [h x List.mem_cons_self, ih (fun r hr => h r (List.mem_cons_of_mem _ hr))]
+    rfl
+
+/-- the hosts container stays silent unless it knows the question -/
+theorem matchSysHosts_silent (e : Engines) (c : Conf) (host : Bytes) (qtype : Nat) (s : Setts)
+    (h : hostsKnows e c host qtype = false) : (matchSysHosts e c host qtype s).reason = .notFound := by
+  unfold hostsKnows at h
+  simp only [Bool.or_eq_false_iff, Bool.and_eq_false_iff] at h
+  obtain ⟨h1, h2⟩ := h
+  unfold matchSysHosts
+  cases hf : s.filtering
+  · simp
+  · simp only [Bool.not_true, Bool.false_eq_true, if_false]
+    by_cases hq : qtype = tA ∨ qtype = tAAAA
+    · rw [if_pos hq]
+      have hany : c.hosts.any (fun r => r.names.any (fun n => lower n == host)) = false := by
+        rcases h1 with h1 | h1
+        · rcases hq with hq | hq <;> simp [hq, tA, tAAAA] at h1
+        · exact h1
+      have hfl : c.hosts.filter (fun r => r.names.any (fun n => lower n == host)) = [] := by
+        apply List.filter_eq_nil_iff.mpr
+        intro r hr
+        have := List.any_eq_false.mp hany r hr
+        simpa using this
+      simp [hostsByName, hfl, dedupIPs]
+    · rw [if_neg hq]
+      by_cases hp : qtype = tPTR
+      · rw [if_pos hp]
+        cases ha : e.arpa host with
+        | none => rfl
+        | some a =>
+          have hany : c.hosts.any (fun r => r.addr.same a && !r.names.isEmpty) = false := by
+            rcases h2 with h2 | h2
+            · simp [hp] at h2
+            · simpa [ha] using h2
+          have hnil : ((c.hosts.filter (fun r => r.addr.same a)).flatMap (·.names)) = [] := by
+            apply flatMap_names_nil
+            intro r hr
+            obtain ⟨hmem, hsame⟩ := List.mem_filter.mp hr
+            have := List.any_eq_false.mp hany r hmem
+            simp [hsame] at this
+            exact this
+          simp [hostsByAddr, hnil, dedupNames]
+      · rw [if_neg hp]
+
+/-- When nothing precedes the rule engines, `CheckHost` is the rule check
+followed by the later checkers. -/
+theorem checkHost_noPre (e : Engines) (c : Conf) (q : Query) (hpre : precededByOther e c q = false)
+    (hh : trimDot q.name ≠ []) :
+    checkHost e c (trimDot q.name) q.qtype (settings c) =
+      match matchHost e (qhost q) q.qtype (settings c) with
+      | .error f => .error f
+      | .ok r => if r.reason ≠ .notFound then .ok r else .ok (checkAfterRules e (qhost q) (settings c)) := by
+  have hq : (qhost q != []) = true := by
+    unfold qhost; simp [lower_eq_nil, hh]
+  unfold precededByOther at hpre
+  simp only [hq, Bool.and_true, Bool.and_eq_false_iff, Bool.or_eq_false_iff] at hpre
+  unfold checkHost
+  simp only [hh, if_false]
+  have hqh : lower (trimDot q.name) = qhost q := rfl
+  rw [hqh, settings_filtering]
+  cases hf : filteringOn c
+  · have hs : (matchSysHosts e c (qhost q) q.qtype (settings c)).reason = .notFound := by
+      unfold matchSysHosts; simp [settings_filtering, hf]
+    simp [hs]
+    rfl
+  · rcases hpre with hpre | ⟨hlr, hhk⟩
+    · simp [hf] at hpre
+    · have hs := matchSysHosts_silent e c (qhost q) q.qtype (settings c) hhk
+      have hrw : (rewriteResult e c (qhost q) q.qtype).reason ≠ .rewritten := by
+        unfold rewriteResult
+        unfold legacyRewritten at hlr
+        simp [hlr]
+      simp [hrw, hs]
+      rfl
+
+/-- The classification of the request-stage check, in the spec's words (no
+rewrite and no hosts entry in front). -/
+theorem checkHost_spec (e : Engines) (hwf : EnginesWF e) (c : Conf) (q : Query)
+    (hpre : precededByOther e c q = false) :
+    ∃ res, checkHost e c (trimDot q.name) q.qtype (settings c) = .ok res ∧
       (blockedByRules e c q = true →
         res.isFiltered = true ∧ (res.reason = .blockList ∨ res.reason = .blockedService) ∧
         res.ips = hostRuleIPs e c (qhost q) q.qtype q.qtype) ∧
       (blockedByRules e c q = false → serviceMayBlock e c q = true →
         res.isFiltered = true ∧ res.reason = .blockedService ∧ res.ips = []) ∧
-      (blockedByRules e c q = false → serviceMayBlock e c q = false →
-        res.isFiltered = false ∧
-        ((res.reason == .allowList) = (protectionOn c && filteringOn c && allowedName e c (qhost q) q.qtype))) := by
-  unfold checkHost
+      (blockedByRules e c q = false → serviceMayBlock e c q = false → otherBlocks e c q = false →
+        res.isFiltered = false ∧ (res.reason = .notFound ∨ res.reason = .allowList) ∧
+        ((res.reason == .allowList) = (protectionOn c && filteringOn c && allowedName e c (qhost q) q.qtype))) ∧
+      (blockedByRules e c q = false → serviceMayBlock e c q = false → otherBlocks e c q = true →
+        res.isFiltered = true ∧ (res.reason = .safeBrowsing ∨ res.reason = .parental)) := by
   by_cases hh : trimDot q.name = []
   · -- the root name: nothing is checked
     have hq : qhost q = [] := by unfold qhost; rw [hh]; rfl
-    refine ⟨{}, by simp [hh], ?_, ?_, ?_⟩
+    refine ⟨{}, by simp [checkHost, hh], ?_, ?_, ?_, ?_⟩
     · simp [blockedByRules, hq]
     · simp [serviceMayBlock, hq]
-    · intro _ _
+    · intro _ _ _
       have h1 := hwf.allow_empty (reqFor c [] q.qtype) rfl
       have h2 := hwf.block_empty (reqFor c [] q.qtype) rfl
       simp [allowedName, hq, h1, h2]
+    · simp [otherBlocks, hq]
   · have hq : (qhost q != []) = true := by
       unfold qhost; simp [lower_eq_nil, hh]
-    simp only [hh, if_false]
-    have hqh : lower (trimDot q.name) = qhost q := rfl
-    rw [hqh]
+    rw [checkHost_noPre e c q hpre hh, checkAfterRules_eq]
     cases hp : protectionOn c
     · -- protection off: nothing is blocked
       have hoff : (protectionOn c && filteringOn c) = false := by simp [hp]
-      rw [matchHost_off e c _ _ hoff, matchBlockedServices_eq]
-      refine ⟨{}, by simp [hp], ?_, ?_, ?_⟩ <;> simp [blockedByRules, serviceMayBlock, hp]
+      rw [matchHost_off e c _ _ hoff]
+      refine ⟨{}, by simp, ?_, ?_, ?_, ?_⟩ <;> simp [blockedByRules, serviceMayBlock, otherBlocks, hp]
     · cases hf : filteringOn c
-      · -- filtering off for this client: only services can block
+      · -- filtering off for this client: only services and the other checkers can block
         have hoff : (protectionOn c && filteringOn c) = false := by simp [hf]
-        rw [matchHost_off e c _ _ hoff, matchBlockedServices_eq]
-        simp only [hp, Bool.not_true]
+        rw [matchHost_off e c _ _ hoff]
+        simp only [Bool.not_true]
         cases hs : (servicesInForce c).find? (fun sv => e.svc sv (qhost q)) with
         | none =>
-          refine ⟨{}, by simp, ?_, ?_, ?_⟩ <;>
-            simp [blockedByRules, serviceMayBlock, hp, hf, hq, any_eq_find, hs]
+          cases hsb : (sbConfigured c && e.sb (qhost q))
+          · cases hpa : (parentalConfigured c && e.parental (qhost q))
+            · refine ⟨{}, by simp [hsb, hpa], ?_, ?_, ?_, ?_⟩ <;>
+                simp [blockedByRules, serviceMayBlock, otherBlocks, hp, hf, hq, any_eq_find, hs, hsb, hpa]
+            · refine ⟨{ reason := .parental, isFiltered := true }, by simp [hsb, hpa], ?_, ?_, ?_, ?_⟩ <;>
+                simp [blockedByRules, serviceMayBlock, otherBlocks, hp, hf, hq, any_eq_find, hs, hsb, hpa]
+          · refine ⟨{ reason := .safeBrowsing, isFiltered := true }, by simp [hsb], ?_, ?_, ?_, ?_⟩ <;>
+              simp [blockedByRules, serviceMayBlock, otherBlocks, hp, hf, hq, any_eq_find, hs, hsb]
         | some sv =>
-          refine ⟨{ reason := .blockedService, isFiltered := true, svcName := sv.name }, by simp, ?_, ?_, ?_⟩ <;>
+          refine ⟨{ reason := .blockedService, isFiltered := true, svcName := sv.name }, by simp, ?_, ?_, ?_, ?_⟩ <;>
             simp [blockedByRules, serviceMayBlock, hp, hf, hq, any_eq_find, hs]
       · obtain ⟨r, hr, hfilt, hallow, hblk, hnot⟩ := matchHost_on e hwf c (qhost q) q.qtype hp hf
         rw [hr]
-        simp only
+        simp only [Bool.not_true]
         cases hrf : r.isFiltered
         · -- not blocked by the lists
           have hnb : ruleBlockedName e c (qhost q) q.qtype = false := by rw [← hfilt, hrf]
           obtain ⟨hreason, _⟩ := hnot hrf
           rcases hreason with hnf | hal
-          · -- no match at all: the services decide
+          · -- no match at all: the later checkers decide
             have hna : allowedName e c (qhost q) q.qtype = false := by rw [← hallow, hnf]; rfl
-            rw [matchBlockedServices_eq]
-            simp only [hnf, hp, Bool.not_true]
+            simp only [hnf]
             cases hs : (servicesInForce c).find? (fun sv => e.svc sv (qhost q)) with
             | none =>
-              refine ⟨{}, by simp, ?_, ?_, ?_⟩ <;>
-                simp [blockedByRules, serviceMayBlock, serviceBlockedName, hp, hf, hq, hnb, hna,
-                  any_eq_find, hs]
+              cases hsb : (sbConfigured c && e.sb (qhost q))
+              · cases hpa : (parentalConfigured c && e.parental (qhost q))
+                · refine ⟨{}, by simp [hsb, hpa], ?_, ?_, ?_, ?_⟩ <;>
+                    simp [blockedByRules, serviceMayBlock, otherBlocks, serviceBlockedName, hp, hf, hq, hnb, hna,
+                      any_eq_find, hs, hsb, hpa]
+                · refine ⟨{ reason := .parental, isFiltered := true }, by simp [hsb, hpa], ?_, ?_, ?_, ?_⟩ <;>
+                    simp [blockedByRules, serviceMayBlock, otherBlocks, serviceBlockedName, hp, hf, hq, hnb, hna,
+                      any_eq_find, hs, hsb, hpa]
+              · refine ⟨{ reason := .safeBrowsing, isFiltered := true }, by simp [hsb], ?_, ?_, ?_, ?_⟩ <;>
+                  simp [blockedByRules, serviceMayBlock, otherBlocks, serviceBlockedName, hp, hf, hq, hnb, hna,
+                    any_eq_find, hs, hsb]
             | some sv =>
-              refine ⟨{ reason := .blockedService, isFiltered := true, svcName := sv.name }, by simp, ?_, ?_, ?_⟩
+              refine ⟨{ reason := .blockedService, isFiltered := true, svcName := sv.name }, by simp, ?_, ?_, ?_, ?_⟩
               · intro _
                 refine ⟨rfl, Or.inr rfl, ?_⟩
                 -- no hosts-style line matched, so there are no rule addresses
@@ -215,22 +343,25 @@ theorem checkHost_spec (e : Engines) (hwf : EnginesWF e) (c : Conf) (q : Query) 
                     have := hwf.block_hosts _ _ _ hb
                     simp [hb] at hnb
                     simp_all
-              · simp [blockedByRules, serviceBlockedName, hp, hf, hq, hnb, hna, any_eq_find, hs]
-              · simp [blockedByRules, serviceBlockedName, hp, hf, hq, hnb, hna, any_eq_find, hs]
+              · simp [blockedByRules, serviceBlockedName, hp, hf, hq, hnb, hna, any_eq_find, hs, hpre]
+              · simp [blockedByRules, serviceBlockedName, hp, hf, hq, hnb, hna, any_eq_find, hs, hpre]
+              · simp [blockedByRules, serviceBlockedName, hp, hf, hq, hnb, hna, any_eq_find, hs, hpre]
           · -- allowed
             have hya : allowedName e c (qhost q) q.qtype = true := by rw [← hallow, hal]; rfl
-            refine ⟨r, by simp [hal], ?_, ?_, ?_⟩
+            refine ⟨r, by simp [hal], ?_, ?_, ?_, ?_⟩
             · simp [blockedByRules, serviceBlockedName, hp, hf, hq, hnb, hya]
             · simp [serviceMayBlock, hf]
-            · intro _ _
-              refine ⟨hrf, ?_⟩
+            · intro _ _ _
+              refine ⟨hrf, Or.inr hal, ?_⟩
               simp [hal, hp, hf, hya]
+            · simp [otherBlocks, hf, hya]
         · -- blocked by the lists
           have hyb : ruleBlockedName e c (qhost q) q.qtype = true := by rw [← hfilt, hrf]
           obtain ⟨hreason, hips, _⟩ := hblk hrf
-          refine ⟨r, by simp [hreason], ?_, ?_, ?_⟩
+          refine ⟨r, by simp [hreason], ?_, ?_, ?_, ?_⟩
           · intro _; exact ⟨hrf, Or.inl hreason, hips⟩
-          · simp [blockedByRules, hp, hf, hq, hyb]
-          · simp [blockedByRules, hp, hf, hq, hyb]
+          · simp [blockedByRules, hp, hf, hq, hyb, hpre]
+          · simp [blockedByRules, hp, hf, hq, hyb, hpre]
+          · simp [blockedByRules, hp, hf, hq, hyb, hpre]
 
 end AGH.Filter
